@@ -621,12 +621,16 @@ theorem ospansText_withOffsets (ss : List Span) : ospansText (withOffsets ss) = 
   rw [List.flatMap_map]
 
 /-- The text in which the engine looks for a target is exactly the text a client reads from the
-document (raw or accepted view) -/
-theorem spans_text_eq_extractText (s : Sess) (clean : Bool) :
+document (raw or accepted view), as long as the session's comment data is that of the document — which it
+is when the session is opened (`Sess.open_cmap`) and until the session adds a comment itself -/
+theorem spans_text_eq_extractText (s : Sess) (clean : Bool) (hcm : s.cmap = commentsMap s.doc) :
     ospansText (s.spans clean) = extractText clean s.doc := by
   unfold Sess.spans
-  rw [ospansText_withOffsets]
+  rw [ospansText_withOffsets, hcm]
   exact mapperText_eq_extractText clean s.doc
+
+theorem Sess.open_cmap (d : Document) (author date : Str) :
+    (Sess.open d author date).cmap = commentsMap (Sess.open d author date).doc := rfl
 
 end Adeu.Doc
 
